@@ -637,6 +637,9 @@ def check_C14(tier):
     for sid in DIR_SCEN:
         jobs.append(('DirFS', sid, False, set(), work, 'ConcOK'))
         jobs.append(('DirFS', sid, False, CURRENT_DIR, work, 'ConcOK'))
+    # the code as it WAS (fix 75f86c2): staging names from the global random generator, seeded alike in both processes
+    for sid in (11, 21, 27):
+        jobs.append(('DirFS', sid, False, {'staging_name_shared'}, work, 'ConcOK'))
     for sid in FILE_SCEN:
         jobs.append(('FileFS', sid, False, set(), work, 'ConcOK'))
         jobs.append(('FileFS', sid, False, CURRENT_FILE, work, 'ConcOK'))
@@ -649,7 +652,8 @@ def check_C14(tier):
             if r['violated'] and not r['deviations']:
                 rep.note_drift('layer I (%s scenario %d) violates C14 with no deviation enabled' % (r['module'], r['scenario']))
             if r['deviations']:
-                devs['%s-%d' % (r['module'], r['scenario'])] = {'counterexample_found': r['violated']}
+                tag = '-staging_name_shared' if 'staging_name_shared' in r['deviations'] else ''
+                devs['%s-%d%s' % (r['module'], r['scenario'], tag)] = {'counterexample_found': r['violated']}
     maxsw = 4 if thorough else 3
     plans = []
     gen_states = gen_trans = 0
